@@ -164,7 +164,7 @@ func c51Check(w *vx.W, ix *c51Index, d string) {
 	ref := c51Lookup(ix, d)
 	ps, icann := PublicSuffix(d)
 	if ps != ref.suffix {
-		w.Failf("C51/suffix/"+ref.kind, "PublicSuffix(%q) = %q, the list algorithm selects %q (prevailing rule kind: %s)", d, ps, ref.suffix, ref.kind)
+		w.Failf("C51/suffix/"+ref.kind+c51Trigger(ix, d, ref), "PublicSuffix(%q) = %q, the list algorithm selects %q (prevailing rule kind: %s)", d, ps, ref.suffix, ref.kind)
 		return
 	}
 	if ref.icannOpen {
@@ -267,6 +267,58 @@ func TestVerif_C51(t *testing.T) {
 				}
 			}
 		}, func(w *vx.W, d string) { c51Check(w, ix, d) })
+
+		// implicit-node: every point of the rule tree that is not a rule itself
+		// (a proper suffix t of some rule that is neither a normal nor an
+		// exception rule and carries no wildcard rule), top-level ones included.
+		// Below such a point, a first label that is NOT one of its listed
+		// children leaves the tree after at least one label was consumed: the
+		// prevailing rule is then the longest rule on the way up, or the default
+		// "*" rule when t is a TLD that is only the parent of longer rules.
+		var implicit []string
+		for t := range ix.suffixOfRule {
+			if ix.implicit(t) {
+				implicit = append(implicit, t)
+			}
+		}
+		sort.Strings(implicit)
+		implicitTLD := 0
+		for _, t := range implicit {
+			if !strings.Contains(t, ".") {
+				implicitTLD++
+			}
+		}
+		c.Note("implicit.nodes", len(implicit))
+		c.Note("implicit.nodes.tld", implicitTLD)
+		c.Rule(fmt.Sprintf("implicit-node: for every one of the %d points t of the rule tree that are not rules themselves (proper suffix of a rule, not a normal/exception rule, no wildcard rule below; %d of them are TLDs, derived from the plain rule list): t, u.t, y.u.t, zz.y.u.t and www.u.t where u is the first of x, zz, q0, q1, ... such that u.t is not in the rule tree (u is not a listed child of t); in this part also the default rule is non-trivial when it prevails for a name of >= 2 labels (its TLD is in the rule tree, so the walk consumes a label before no rule matches)", len(implicit), implicitTLD))
+		vx.Enumerate(c, "implicit-node", vx.Opts{}, func(yield func(string) bool) {
+			for _, t := range implicit {
+				u := ""
+				for i, cand := 0, []string{"x", "zz"}; ; i++ {
+					if i < len(cand) {
+						u = cand[i]
+					} else {
+						u = fmt.Sprintf("q%d", i-len(cand))
+					}
+					if !ix.suffixOfRule[u+"."+t] {
+						break
+					}
+				}
+				for _, d := range []string{t, u + "." + t, "y." + u + "." + t, "zz.y." + u + "." + t, "www." + u + "." + t} {
+					if !yield(d) {
+						return
+					}
+				}
+			}
+		}, func(w *vx.W, d string) {
+			c51Check(w, ix, d)
+			if ref := c51Lookup(ix, d); ref.kind == "default" && !c51HasEmptyLabel(d) && strings.Contains(d, ".") {
+				// c51Check counts only non-default cases; here the default rule
+				// reached through a parent-only TLD is the case of interest.
+				w.Nontrivial()
+				w.Outcome("default-below-implicit-tld")
+			}
+		})
 
 		labels := []string{"x", "zz", "com", "co", "uk", "ck", "www"}
 		if !c.Quick() {
